@@ -154,10 +154,40 @@ fn run05(ctx: &Ctx) {
     });
     let cases = ctx.share(ctx.tier.pick(32_000, 960_000));
     ctx.shrink_iters.set(1500);
-    ctx.search("mutants", "exec", cases, (mutant(), env()), |(m, e), want_case| {
+    ctx.search("mutants", "exec", cases, (mutant(), env(), any::<u16>()), |(m, e, cross), want_case| {
         let base = gen::lower(&m.p);
         let mut prog = base.prog.clone();
         soup::apply_all(&m.muts, &mut prog);
+        // a quarter of the programs start with a legacy packet load whose effective address is
+        // valid but lies in another region: packet + (stack slot - packet), or the metadata buffer
+        // reached relative to the packet. Relative jumps and calls are unaffected by a prefix.
+        if cross & 3 == 0 && !base.pkt.is_empty() && prog.len() % 8 == 0 {
+            let w = [1usize, 2, 4, 8][(*cross as usize >> 2) & 3];
+            let slot = -8 * (1 + (*cross as i32 >> 4) % 64);
+            let mut pre: Vec<Insn> = Vec::new();
+            match base.vm {
+                VmKind::Raw => {
+                    pre.push(Insn::new(alu_opc(true, ALU_MOV, true), 2, 10, 0, 0));
+                    pre.push(Insn::new(alu_opc(true, ALU_SUB, true), 2, 1, 0, 0));
+                    pre.push(Insn::new(alu_opc(true, ALU_ADD, false), 2, 0, 0, slot));
+                    pre.push(Insn::new(ldind_opc(w), 0, 2, 0, 0));
+                }
+                VmKind::Mbuff { data_off, .. } if data_off < 32000 && base.mbuff.len() >= data_off + 8 => {
+                    // r3 = packet pointer; r2 = metadata buffer - packet
+                    pre.push(Insn::new(ldx_opc(8), 3, 1, data_off as i16, 0));
+                    pre.push(Insn::new(alu_opc(true, ALU_MOV, true), 2, 1, 0, 0));
+                    pre.push(Insn::new(alu_opc(true, ALU_SUB, true), 2, 3, 0, 0));
+                    pre.push(Insn::new(ldind_opc(w), 0, 2, 0, 0));
+                }
+                _ => {}
+            }
+            if !pre.is_empty() {
+                let mut all = encode_prog(&pre);
+                all.extend_from_slice(&prog);
+                prog = all;
+                ctx.stats().class("mutant:starts-with-cross-region-packet-load");
+            }
+        }
         let mut case = make_case(prog, e);
         case.vm = base.vm;
         case.pkt = base.pkt.clone();
